@@ -4,6 +4,10 @@ use crate::Report;
 use serde_json::{json, Value};
 
 pub mod adapters;
+pub mod commit_faults;
+pub mod delivery;
+pub mod meld_audit;
+pub mod orch;
 pub mod delta_roundtrip;
 pub mod deltaid;
 pub mod history;
@@ -26,6 +30,9 @@ pub fn run(name: &str, thorough: bool, seed: u64) -> Option<Report> {
         "adapters" => Some(adapters::run(thorough, seed)),
         "patch" => Some(patch::run(thorough, seed)),
         "history" => Some(history::run(thorough, seed)),
+        "delivery" => Some(delivery::run(thorough, seed)),
+        "commit_faults" => Some(commit_faults::run(thorough, seed)),
+        "meld_audit" => Some(meld_audit::run(thorough, seed)),
         _ => None,
     }
 }
@@ -42,6 +49,9 @@ pub fn replay(name: &str, case: &Value) -> Value {
         "adapters" => adapters::replay(case),
         "patch" => patch::replay(case),
         "history" => history::replay(case),
+        "delivery" => delivery::replay(case),
+        "commit_faults" => commit_faults::replay(case),
+        "meld_audit" => meld_audit::replay(case),
         _ => json!({"reproduced": false, "error": "unknown oracle"}),
     }
 }
